@@ -1075,6 +1075,11 @@ class Arr2:
                 raise Unsupported("2-D region assignment from 1-D value")
         elif isinstance(val, Arr2):
             vs = val.snap()
+            # numpy requires the block to fit the region (no broadcasting of 2-D blocks is modelled)
+            if ra[0] == "s":
+                dom().require_eq(val.r, ra[2], "could not broadcast input array into the selected rows")
+            if ca[0] == "s":
+                dom().require_eq(val.c, ca[2], "could not broadcast input array into the selected columns")
             vf = lambda a, b: vs(a - ra[1], b - ca[1])
         else:
             vf = lambda a, b: val
@@ -1083,7 +1088,13 @@ class Arr2:
             if ax[0] == "i":
                 return s_eq(x, ax[1])
             return b_and(s_cmp(">=", x, ax[1]), s_cmp("<", x, ax[1] + ax[2]))
-        f = lambda a, b: s_ite(b_and(inr(a, ra), inr(b, ca)), cast_to(vf(a, b), dt), old(a, b))
+        def f(a, b):
+            c = b_and(inr(a, ra), inr(b, ca))
+            if c is True:
+                return cast_to(vf(a, b), dt)
+            if c is False:
+                return old(a, b)          # outside the region: the source block is not even looked at
+            return s_ite(c, cast_to(vf(a, b), dt), old(a, b))
         if self.rows is not None:
             self.rows = [[f(i, j) for j in range(self.c)] for i in range(self.r)]
         else:
